@@ -106,6 +106,8 @@ thread_local! {
     static IDLE_MS: std::cell::Cell<u64> = const { std::cell::Cell::new(0) };
     /// When `StreamServer::shutdown()` was called in this run, if it was.
     static SHUTDOWN_NS: std::cell::Cell<Option<u64>> = const { std::cell::Cell::new(None) };
+    /// When `DgramServer::shutdown()` was called in this run, if it was.
+    static DG_SHUTDOWN_NS: std::cell::Cell<Option<u64>> = const { std::cell::Cell::new(None) };
 }
 
 type SvcStream = Pin<Box<dyn Stream<Item = ServiceResult<Vec<u8>>> + Send>>;
@@ -1173,6 +1175,7 @@ async fn run(_tier: Tier) {
     RECONF_NS.with(|p| p.borrow_mut().clear());
     IDLE_MS.with(|c| c.set(knobs.idle_timeout_ms));
     SHUTDOWN_NS.with(|c| c.set(None));
+    DG_SHUTDOWN_NS.with(|c| c.set(None));
     let udp = UdpNet::new();
     let server_addr = addr(1, 53);
     let server_sock = udp.bind(server_addr);
@@ -1245,6 +1248,22 @@ async fn run(_tier: Tier) {
             // The stream server is shut down mid-run: what the service had
             // produced by then is still written ("pending responses will be
             // written as long as the client side remains operational").
+            // The datagram server is shut down mid-run: "in-flight requests
+            // will continue being processed ... pending responses will be
+            // written" - a request the service had been called for by then
+            // still gets its answer.
+            if sim::chance("cfg.dgram_shutdown", 1, 8) {
+                let at = 1 + sim::draw("cfg.dgram_shutdown_at_ms", 160);
+                let d4 = dsrv.clone();
+                tokio::spawn(async move {
+                    tokio::time::sleep(Duration::from_millis(at)).await;
+                    sim::sync_clock();
+                    sim::stat("fault.dgram_server_shutdown");
+                    ev!("datagram server shutdown()");
+                    DG_SHUTDOWN_NS.with(|c| c.set(Some(sim::now_ns())));
+                    let _ = d4.shutdown();
+                });
+            }
             if !limit_binds && sim::chance("cfg.shutdown", 1, 6) {
                 let at = 1 + sim::draw("cfg.shutdown_at_ms", 160);
                 let s4 = ssrv.clone();
@@ -1385,7 +1404,7 @@ async fn run(_tier: Tier) {
         sim::stat("probe.afterwards_phase");
         ev!("everybody has left");
         sim::sleep_ms(100_000).await;
-        if !late_udp_client(&udp, server_addr, 910_000).await {
+        if DG_SHUTDOWN_NS.with(|c| c.get()).is_none() && !late_udp_client(&udp, server_addr, 910_000).await {
             sim::violation(P, "liveness", "datagram-server-serves-nobody-after-the-run".to_string(), "100 s after every client had left, a plain UDP request with EDNS went unanswered five times in a row (10 s each)".to_string());
             return;
         }
@@ -1601,6 +1620,17 @@ fn check(led: &Led, max_response_size: Option<u16>, junk: &[Vec<u8>]) {
                     }
                 }
                 None => {
+                    // After the datagram server's shutdown only what was in
+                    // the service's hands by then is still owed.
+                    if s.udp {
+                        if let Some(t) = DG_SHUTDOWN_NS.with(|c| c.get()) {
+                            let called = CALLED.with(|p| p.borrow().get(&s.ask.k).copied());
+                            if !called.is_some_and(|tc| tc + 1_000_000 <= t) {
+                                sim::stat("probe.loss_excused_by_shutdown");
+                                continue;
+                            }
+                        }
+                    }
                     let shut = SHUTDOWN_NS.with(|c| c.get());
                     match shut {
                         Some(t) if !s.udp => {
